@@ -367,8 +367,13 @@ fn all_names_over(alphabet: [char; 3], max_len: usize) -> Vec<String> {
 
 fn gen_input(rng: &mut Rng, names: &[String]) -> Input {
     let pool = ["A", "B", "C", "D", "é"];
-    let n_app = rng.usize_below(6);
-    let appenders: Vec<String> = (0..n_app).map(|_| (*rng.pick(&pool[..4.min(pool.len())])).to_owned()).collect();
+    // now and then dozens of appenders (many duplicates of few names, or mostly distinct names with a few repeats)
+    let many = rng.chance(1, 12);
+    let n_app = if many { 18 + rng.usize_below(30) } else { rng.usize_below(6) };
+    let distinct_names = many && rng.chance(1, 2);
+    let appenders: Vec<String> = (0..n_app).map(|i| {
+        if distinct_names && !rng.chance(1, 6) { format!("N{}", i) } else { (*rng.pick(&pool[..4.min(pool.len())])).to_owned() }
+    }).collect();
     let gen_refs = |rng: &mut Rng| -> Vec<String> {
         let k = rng.usize_below(4);
         (0..k).map(|_| (*rng.pick(&pool)).to_owned()).collect()
